@@ -47,9 +47,10 @@ impl Parser<'_, '_> {
             };
             self.take_token_raw().await?;
 
-            while self.newline_and_here_doc_contents().await? {}
-
             let maybe_pipeline = loop {
+                // Newlines may also come from an alias substituted in `pipeline`.
+                while self.newline_and_here_doc_contents().await? {}
+
                 if let Rec::Parsed(maybe_pipeline) = self.pipeline().await? {
                     break maybe_pipeline;
                 }
